@@ -337,8 +337,24 @@ def driver_main(args):
     harness_errors = []
     results = []
     crashed = []
+    budget = mod.budget(tier)
+    hard = budget.get("hard_seconds", budget.get("soft_seconds", 600) * 2 + 300)
+    t_spawn = time.time()
     for mode, k, p, out, logp in procs:
-        rc = p.wait()
+        try:
+            rc = p.wait(timeout=max(1.0, hard - (time.time() - t_spawn)))
+        except subprocess.TimeoutExpired:
+            # far beyond the soft budget: the worker is stuck inside one call (the soft guard only
+            # acts between cases). Its current case becomes a 'process-hang' candidate.
+            p.kill()
+            p.wait()
+            if os.path.exists(out + ".last"):
+                with open(out + ".last") as fd:
+                    crashed.append({"bucket": "process-hang", "case": json.load(fd),
+                                    "detail": {"worker": f"{mode}-{k}", "killed_after_s": round(time.time() - t_spawn)}})
+            else:
+                harness_errors.append(f"worker {mode}-{k} exceeded {hard} s without a current case")
+            continue
         if rc < 0 and os.path.exists(out + ".last"):
             # the interpreter died (signal): the last case becomes a crash candidate
             with open(out + ".last") as fd:
@@ -414,10 +430,15 @@ def driver_main(args):
                 rec["history"] = hist
             with open(os.path.join(ROOT, path), "w") as fd:
                 json.dump(rec, fd, indent=1, default=str)
-            cp = subprocess.run([PY, "-m", "vlib.core", "replay", pid, "--replay", path],
-                                cwd=ROOT, env=env, capture_output=True, text=True)
+            try:
+                cp = subprocess.run([PY, "-m", "vlib.core", "replay", pid, "--replay", path],
+                                    cwd=ROOT, env=env, capture_output=True, text=True,
+                                    timeout=300 if bucket == "process-hang" else 1800)
+            except subprocess.TimeoutExpired:
+                cp = subprocess.CompletedProcess([], 124 if bucket == "process-hang" else 2, "", "replay timed out")
             last = (path, cp)
-            if cp.returncode == 1 or (cp.returncode < 0 and bucket.startswith("process-crash")):
+            if cp.returncode == 1 or (cp.returncode < 0 and bucket.startswith("process-crash")) or \
+                    (cp.returncode == 124 and bucket == "process-hang"):
                 violations.append({"bucket": bucket, "replay": path, "detail": det, "form": kind})
                 confirmed = True
                 break
